@@ -208,7 +208,9 @@ func loadStateAtHeight(db kaidb.Database, height uint64) *LatestBlockState {
 		panic(fmt.Errorf(`block meta not found at height %v`, height))
 	}
 	state.LastBlockHeight = blockMeta.Header.Height
-	state.LastBlockID = blockMeta.BlockID
+	if height > 0 { // the genesis state is made and saved with the zero last block id, not the genesis block's
+		state.LastBlockID = blockMeta.BlockID
+	}
 	state.LastBlockTime = blockMeta.Header.Time
 	state.LastBlockTotalTx = blockMeta.Header.NumTxs
 
